@@ -887,4 +887,104 @@ theorem trackDel_facts {v : Variant} {bal locked dv df amt dv' df' : Int} (ha : 
     cases sd <;> simp [vOf, kDelReject, nv_trackDel_reject, sd_trackDel_reject, Int.isZeroB] at hrej
   · cases sd <;> simp [vOf, kDelReject, nv_trackDel_reject, sd_trackDel_reject, Int.isZeroB] at hrej <;> omega
 
+theorem convReverse_other {b b' : Bank} {holder : Addr} {amt : Int} (hh : holder ≠ Convert.moduleAcc)
+    (h : Convert.convertReverse bond fee b holder amt = .ok b') :
+    ∀ a d, a ≠ holder → a ≠ Convert.moduleAcc → b'.bal a d = b.bal a d :=
+  (C13.swapDenoms_exact b b' holder fee bond amt (by decide) hh h).2.2.2.2.2.2.1
+
+theorem inv_nvDelegate {s s' : St} {c sd : Addr} {vo : Bool} {d : Denom} {amt : Int} {e : Ext} (hI : Inv s)
+    (ho : extOk e ∧ e.share = amt) (h : doNvDelegate s c sd vo d amt e = .ok s') : Inv s' := by
+  simp only [doNvDelegate] at h
+  split at h; · simp at h
+  rename_i hcv
+  split at h; · simp at h
+  split at h; · simp at h
+  obtain ⟨locked, hl, h⟩ := Bank.bind_ok h
+  split at h; · simp at h
+  rename_i hb
+  split at h; · simp at h
+  rename_i dv df htd
+  split at h; · simp at h
+  split at h; · simp at h
+  rename_i hneg
+  split at h; · simp at h
+  obtain ⟨b1, hb1, h⟩ := Bank.bind_ok h
+  obtain ⟨b2, hb2, h⟩ := Bank.bind_ok h
+  obtain ⟨b3, hb3, h⟩ := Bank.bind_ok h
+  obtain ⟨b4, hb4, h⟩ := Bank.bind_ok h
+  obtain ⟨b5, hb5, h⟩ := Bank.bind_ok h
+  simp only [Res.ok.injEq] at h
+  subst h
+  obtain ⟨⟨hrf, hrb⟩, hsh⟩ := ho
+  have ha : 0 ≤ amt := by omega
+  obtain ⟨x, x0, xa, xm, xf, edv, edf, anz, able⟩ := trackDel_facts ha htd
+  have hv : s.variant = .nv := by
+    simp only [Bool.or_eq_true, Bool.not_eq_true', decide_eq_true_eq, not_or] at hcv
+    have := hcv.2; simpa using this
+  have hcr : s.created = true := by
+    simp only [Bool.or_eq_true, Bool.not_eq_true', decide_eq_true_eq, not_or] at hcv
+    have := hcv.1; simpa using this
+  have hbl : blocked s = false := by simpa using hb
+  have hl' : lockedT s s.now = .ok locked := hl
+  have hr := lockedT_range hI hl'
+  obtain ⟨_, _, e1⟩ := Bank.send_ok hb1
+  have hconv := convReverse_other (by decide : scMod ≠ Convert.moduleAcc) hb2
+  obtain ⟨_, _, e3⟩ := Bank.send_ok hb3
+  obtain ⟨_, e4⟩ := Bank.mint_ok hb4
+  obtain ⟨_, _, e5⟩ := Bank.send_ok hb5
+  have fL : b5.bal lock fee = s.bank.bal lock fee + e.rewFee - amt := by
+    subst e5 e4 e3
+    have := hconv lock fee (by decide) (by decide)
+    simp [Bank.credit_bal, fee, bond, shareD, lock, scMod, stakingPool] at this ⊢
+    rw [this, e1]
+    simp [Bank.credit_bal, claim_bal, fee, bond, shareD, lock, scMod]; omega
+  have fS : b5.bal lock shareD = s.bank.bal lock shareD + e.share := by
+    subst e5 e4 e3
+    have := hconv lock shareD (by decide) (by decide)
+    simp [Bank.credit_bal, fee, bond, shareD, lock, scMod, stakingPool] at this ⊢
+    rw [this, e1]
+    simp [Bank.credit_bal, claim_bal, fee, bond, shareD, lock, scMod]
+  have fP : b5.bal "plock" bond = s.bank.bal "plock" bond := by
+    subst e5 e4 e3
+    have := hconv "plock" bond (by decide) (by decide)
+    simp [Bank.credit_bal, fee, bond, shareD, lock, scMod, stakingPool] at this ⊢
+    rw [this, e1]
+    simp [Bank.credit_bal, claim_bal, fee, bond, shareD, lock, scMod]
+  have key : ∀ t l, s.now ≤ t → lockedT s t = .ok l → l ≤ locked := fun t l ht hlt => lockedT_antitone hI ht hl' hlt
+  have hbal : amt ≤ s.bank.bal lock fee := able
+  constructor
+  · exact hI.ol0
+  · exact hI.ut0
+  · show 0 ≤ dv; have := hI.dv0; omega
+  · show 0 ≤ df; have := hI.df0; omega
+  · show 0 ≤ b5.bal lock fee; rw [fL]; omega
+  · show 0 ≤ b5.bal lock shareD; rw [fS]; have := hI.bS0; omega
+  · show 0 ≤ b5.bal "plock" bond; rw [fP]; exact hI.bP0
+  · exact hI.st0
+  · exact hI.ubd0
+  · exact hI.sc0
+  · intro hc t l ht hlt
+    have h1 := hI.cover hc t l ht hlt
+    have h2 := key t l ht hlt
+    show l - dv ≤ b5.bal lock fee
+    rw [fL, edv]
+    rcases xf with hx | hx <;> omega
+  · have := hI.tracked
+    unfold actualDelegated at this ⊢
+    simp only [hv] at this ⊢
+    show dv + df ≤ b5.bal lock shareD + sumEntries s.entries
+    rw [fS]; omega
+  · intro _ _
+    have := hI.liveNv hv hbl
+    show dv + df ≤ b5.bal lock shareD + sumUnb lock s.scUnb
+    rw [fS]; omega
+  · exact hI.scHead
+  · exact hI.headUt
+  · intro hc t l ht hlt
+    have := hI.cust hc t l ht hlt
+    unfold custody at this ⊢
+    simp only [hv] at this ⊢
+    show l ≤ b5.bal lock fee + b5.bal lock shareD + sumUnb lock s.scUnb
+    rw [fL, fS]; omega
+
 end Sunrise.C12
